@@ -19,6 +19,7 @@
     control shape `C07_pool_shape` says (`if[continue]`).
 -/
 import Cpf.Props.C07
+import Cpf.Scan.Attrs
 import Cpf.Lemmas.Walk
 
 namespace Cpf.Props.C08
@@ -106,6 +107,18 @@ example :
     getFiles ["p"] (.dir "p" false false [.file "A.java" false, .file "Gone.java" true, .file "notes.txt" false,
                     .dir "locked" false true [.file "U.java" false], .dir "src" false false [.file "F.java" false, .file "x.JAVA" false]])
       = ([["p", "A.java"], ["p", "src", "F.java"]], false) := by decide
+
+/-- what the declaration x invocation pass derives for a method (`hasAccess`) is decided by the calls of the same
+    file's tree alone: it holds exactly when that tree has a call with the method's name and parameter count -/
+theorem C08_hasAccess_file_local (src : Cpf.Scan.Bytes) (t : Cpf.Scan.T) (name : Cpf.Scan.Bytes) (k : Nat) :
+    Cpf.Scan.hasAccess (Cpf.Scan.callSigs src t) name k = true ↔ (name, k) ∈ Cpf.Scan.callSigs src t := by
+  unfold Cpf.Scan.hasAccess
+  simp only [List.any_eq_true, Bool.and_eq_true, beq_iff_eq]
+  constructor
+  · rintro ⟨⟨a, b⟩, hm, h1, h2⟩
+    simp only at h1 h2
+    subst h1; subst h2; exact hm
+  · intro h; exact ⟨(name, k), h, rfl, rfl⟩
 
 /-- Non-vacuity: F merged with a sibling and a faulty file. -/
 example :
